@@ -337,6 +337,79 @@ def _dedup(fails):
     return out
 
 
+def check_rewrite(recipe) -> list[Fail]:
+    """history: load a path, replace the file's contents, load the same path again - every time the result must be what the class-level codec gives for the CURRENT contents"""
+    import molli as ml
+
+    fails: list[Fail] = []
+    d = _tmp()
+    try:
+        fmt = recipe["fmt"]
+        path = os.path.join(d, "same_path." + fmt)
+        contents = []
+        if fmt == "cdxml":
+            for f in recipe["files"]:
+                contents.append(open(str(getattr(ml.files, f)), "rb").read())
+        else:
+            for r in recipe["mols"]:
+                contents.append(getattr(chem.build_molecule(r, ml.Molecule), "dumps_" + fmt)().encode())
+        keys = []
+        for step, blob in enumerate(contents):
+            with open(path, "wb") as f:
+                f.write(blob)
+            for fn in recipe["fns"]:
+                where = f"step {step}: ml.{fn}({fmt} at a path whose contents were replaced {step} time(s))"
+                try:
+                    if fmt == "cdxml":
+                        cdx = ml.CDXMLFile(path)
+                        if fn == "load":
+                            exp = ml.Molecule(cdx._parse_fragment(cdx.xfrags[0]))
+                            got = ml.load(path)
+                            _same(exp, got, where, fails, coords=False)
+                        else:
+                            exp = [ml.Molecule(cdx._parse_fragment(fg)) for fg in cdx.xfrags]
+                            got = ml.load_all(path)
+                            if len(got) != len(exp):
+                                fails.append(Fail("stale-or-wrong-result-after-file-rewrite:" + fn, f"{where}: {len(got)} fragments, the file has {len(exp)}"))
+                            else:
+                                for e_, g_ in zip(exp, got):
+                                    _same(e_, g_, where, fails, coords=False)
+                    else:
+                        if fn == "load":
+                            _same(getattr(ml.Molecule, "load_" + fmt)(path), ml.load(path), where, fails)
+                        else:
+                            exp = getattr(ml.Molecule, "load_all_" + fmt)(path)
+                            got = ml.load_all(path)
+                            if not isinstance(got, list) or len(got) != len(exp):
+                                fails.append(Fail("stale-or-wrong-result-after-file-rewrite:" + fn, where))
+                            else:
+                                for e_, g_ in zip(exp, got):
+                                    _same(e_, g_, where, fails)
+                except Exception as e:
+                    s_ = exc_sig(e)
+                    if s_ is None:
+                        raise
+                    fails.append(Fail(f"raises-after-file-rewrite:{fn}:{s_}", f"{where}: {e!r}"[:300]))
+                if step > 0:
+                    keys.append((fmt, fn, step, _rh(recipe)))
+        for f_ in fails:
+            if f_.sig.startswith("result-differs") or f_.sig.startswith("wrong-type"):
+                f_.sig = "stale-or-wrong-result-after-file-rewrite:" + f_.sig
+        tally(units=max(0, len(contents) * len(recipe["fns"]) - 1), nontrivial_keys=keys)
+    finally:
+        shutil.rmtree(d, ignore_errors=True)
+    return _dedup(fails)
+
+
+def strat_rewrite(tier):
+    molr = chem.molecule_recipe(max_atoms=6, max_bonds=6, attribs=False, mol2_safe=True, min_atoms=1).map(_clean)
+    fns = st.lists(st.sampled_from(["load", "load_all"]), min_size=1, max_size=2, unique=True)
+    return st.one_of(
+        st.fixed_dictionaries({"fmt": st.sampled_from(["xyz", "mol2"]), "mols": st.lists(molr, min_size=2, max_size=3), "fns": fns}),
+        st.fixed_dictionaries({"fmt": st.just("cdxml"), "files": st.lists(st.sampled_from(["parser_demo_cdxml", "charges_mult_cdxml", "substituents_cdxml", "BOX_bridge", "BOX_cores"]), min_size=2, max_size=3, unique=True), "fns": fns}),
+    )
+
+
 def enum_matrix(tier, shard, nshards):
     i = 0
     for fmt, files in BUNDLED.items():
@@ -391,6 +464,8 @@ def strat_gen_dump(tier):
 
 
 LEGS = [
+    Leg("rewrite", check_rewrite, lambda r: (False, ["fmt=" + r["fmt"]]), strategy=strat_rewrite, n={"quick": 60, "thorough": 1500}, shards={"quick": 12, "thorough": 32},
+        rule="histories on ONE path: write contents A, ml.load / ml.load_all, replace the contents by B (and C), load again; xyz / mol2 (generated) and cdxml (bundled drawings); the result must follow the current contents; non-trivial = loads after a rewrite"),
     Leg("matrix", check_matrix, lambda r: (False, ["input=" + r["input"].get("file", "generated")]), enumerate=enum_matrix, exhaustive=True, shards={"quick": 9, "thorough": 9},
         rule="ALL load/loads/load_all/loads_all cells (fn x 5 formats x src kind x fmt explicit|suffix x 5 otypes x name given|not = 500 cells) on each of 9 bundled xyz / mol2 / cdxml files; "
              "evaluations = cells executed; non-trivial = cell reaches a codec (not rejected by format validation; multi-frame file for the _all functions)"),
